@@ -57,8 +57,11 @@ func (o wop) String() string {
 	if o.Kind == "buf" || o.Kind == "write" {
 		return fmt.Sprintf("%s(%d)", o.Kind, o.N)
 	}
-	if o.Kind == "flush" {
-		return "flush"
+	if o.Kind == "flush" || o.Kind == "reset" {
+		return o.Kind
+	}
+	if o.Kind == "nested" {
+		return fmt.Sprintf("nested(%d,%d)", o.N, o.N+2)
 	}
 	return fmt.Sprintf("%s(after %d)", o.Kind, o.N)
 }
@@ -81,6 +84,33 @@ func runWriterOps(ops []wop, mutateAfterFlush bool) error {
 			w.ChainWrite(data)
 			chained = append(chained, data)
 			pending = append(pending, data...)
+		case "nested":
+			// ChainWrite from inside a ChainBuffer callback, between two appends to the buffer:
+			// call order is buffer bytes, chained slice, buffer bytes.
+			d1 := gen.Expand(op.Seed+uint64(i)*11, op.N)
+			d2 := gen.Expand(op.Seed+uint64(i)*13, op.N+2)
+			d3 := gen.Expand(op.Seed+uint64(i)*17, 1)
+			w.ChainBuffer(func(b *proto.Buffer) {
+				b.PutRaw(d1)
+				w.ChainWrite(d2)
+				b.PutRaw(d3)
+			})
+			chained = append(chained, d2)
+			pending = append(pending, d1...)
+			pending = append(pending, d2...)
+			pending = append(pending, d3...)
+		case "reset":
+			// Discards everything chained and not flushed; the caller owns its slices again.
+			w.Reset()
+			pending = pending[:0]
+			if mutateAfterFlush {
+				for _, c := range chained {
+					for j := range c {
+						c[j] ^= 0xff
+					}
+				}
+			}
+			chained = chained[:0]
 		case "flush", "flushfail", "flushshort":
 			before := len(s.got)
 			if op.Kind != "flush" {
@@ -152,7 +182,7 @@ func trunc(b []byte) []byte {
 
 var c14alphabet = []wop{
 	{Kind: "buf", N: 3}, {Kind: "buf", N: 0}, {Kind: "write", N: 5}, {Kind: "write", N: 0}, {Kind: "flush"},
-	{Kind: "flushfail", N: 4}, {Kind: "flushshort", N: 4},
+	{Kind: "flushfail", N: 4}, {Kind: "flushshort", N: 4}, {Kind: "reset"}, {Kind: "nested", N: 0}, {Kind: "nested", N: 2},
 }
 
 func TestC14ExhaustiveShort(t *testing.T) {
@@ -192,7 +222,7 @@ func TestC14ExhaustiveShort(t *testing.T) {
 	}
 	rec(0)
 	st.Enumerated(n, nt)
-	st.Exhaustive(fmt.Sprintf("all operation sequences of length <= %d over a 7-letter alphabet", maxLen))
+	st.Exhaustive(fmt.Sprintf("all operation sequences of length <= %d over a %d-letter alphabet", maxLen, len(c14alphabet)))
 	st.Sample(map[string]any{"kind": "writer-exhaustive", "alphabet": fmt.Sprint(c14alphabet), "sequences": n})
 }
 
@@ -203,10 +233,12 @@ func nontrivialOps(ops []wop) bool {
 		switch o.Kind {
 		case "buf":
 			sawBuf = sawBuf || o.N > 0
-		case "write":
-			if sawBuf {
+		case "write", "nested":
+			if sawBuf || o.Kind == "nested" {
 				mixed = true
 			}
+		case "reset":
+			sawBuf = false
 		case "flush":
 			flushes++
 		default:
@@ -224,7 +256,7 @@ func TestC14RandomLong(t *testing.T) {
 		n := rapid.IntRange(1, 60).Draw(rt, "ops")
 		var ops []wop
 		for i := 0; i < n; i++ {
-			k := rapid.SampledFrom([]string{"buf", "buf", "write", "write", "flush", "flushfail", "flushshort"}).Draw(rt, "op")
+			k := rapid.SampledFrom([]string{"buf", "buf", "buf", "write", "write", "write", "flush", "flush", "flushfail", "flushshort", "reset", "nested"}).Draw(rt, "op")
 			ops = append(ops, wop{Kind: k, N: sizeGen.Draw(rt, "size"), Seed: rapid.Uint64().Draw(rt, "seed")})
 		}
 		if err := runWriterOps(ops, rapid.Bool().Draw(rt, "mutate-after-flush")); err != nil {
